@@ -92,6 +92,11 @@ def run(check, prog):
     # coefficients and the index convention they are evaluated in (shared with C02)
     from . import c02
     c02.albl(check, prog, canon)
+    # MieLens == Lens(Mie) at every detector point: the analytic theory works at
+    # one height, so it has to refuse points at several (the wrapper uses each
+    # point's own): rule shared with C07
+    from . import c07
+    c07.point_independence(check, prog)
 
 
 def numexpr_agreement(check, prog, canon):
